@@ -22,6 +22,8 @@ pub struct Node {
     pub epoch: u32,
     pub t: [RefCell<Option<Cc<Node>>>; NT],
     pub h: [RefCell<Option<Cc<Node>>>; NH],
+    /// traced, but never dropped by this value's drop glue: a Cc left in it when the owner dies is leaked
+    pub md: std::mem::ManuallyDrop<RefCell<Option<Cc<Node>>>>,
     #[cfg(feature = "weak-ptrs")]
     pub w: [RefCell<Option<Weak<Node>>>; NW],
     #[cfg(feature = "cleaners")]
@@ -72,6 +74,7 @@ impl Node {
             epoch,
             t: Default::default(),
             h: Default::default(),
+            md: std::mem::ManuallyDrop::new(RefCell::new(None)),
             #[cfg(feature = "weak-ptrs")]
             w: Default::default(),
             #[cfg(feature = "cleaners")]
@@ -98,6 +101,17 @@ impl Node {
             CanaryState::Tombstone
         } else {
             CanaryState::Garbage
+        }
+    }
+
+    /// Traced slot i: 0..NT are ordinary, NT is the ManuallyDrop one.
+    pub fn tslot(&self, i: usize) -> Option<&RefCell<Option<Cc<Node>>>> {
+        if i < NT {
+            self.t.get(i)
+        } else if i == NT {
+            Some(&*self.md)
+        } else {
+            None
         }
     }
 
@@ -139,6 +153,7 @@ unsafe impl Trace for Node {
             for s in self.t.iter() {
                 s.trace(ctx);
             }
+            self.md.trace(ctx);
             return;
         }
         let _g = FrameGuard::cb(Cb::TracePre, self.id);
@@ -156,6 +171,7 @@ unsafe impl Trace for Node {
         for s in self.t.iter().skip(1) {
             s.trace(ctx);
         }
+        self.md.trace(ctx);
         wd.fault_point(Cb::TracePost);
     }
 }
